@@ -876,8 +876,17 @@ pub fn streamsm(trace: &[Value]) -> Vec<Value> {
                             "More" => "Blocked",
                             o => o,
                         };
+                        // the half as it was before the call: bytes read so far and the final size, if known
+                        let (mut br0, mut fs0) = (-1i64, -1i64);
+                        for r in e["pre"]["streams"]["recv"].as_array().cloned().unwrap_or_default() {
+                            if r["id"] == e["id"] {
+                                br0 = cap(&r["br"]);
+                                fs0 = cap(&r["fs"]);
+                            }
+                        }
                         out.push(json!({"ev":"Op","side":side,"op":"read","id":e["id"],"res":res,
-                            "code":e["res"].get("code").map_or(-1, cap),"arg":if e["ordered"] == false { 0 } else { 1 },"closed":closed}));
+                            "code":e["res"].get("code").map_or(-1, cap),"arg":if e["ordered"] == false { 0 } else { 1 },"closed":closed,
+                            "br0":br0,"fs0":fs0,"tot":cap(&e["res"]["total"])}));
                     }
                     "open" | "accept" => {
                         out.push(json!({"ev":"Op","side":side,"op":op,"id":e["res"].get("id").map_or(-1, cap),
@@ -901,7 +910,7 @@ pub fn streamsm(trace: &[Value]) -> Vec<Value> {
                                 fr.push(json!({"k":"stop","id":f["id"],"code":cap(&f["code"])}));
                             }
                             "STREAM" if dfr[23].as_i64().unwrap_or(0) > 0 => {
-                                fr.push(json!({"k":if f["fin"] == true { "fin" } else { "used" },"id":f["id"],"code":-1}));
+                                fr.push(json!({"k":if f["fin"] == true { "fin" } else { "data" },"id":f["id"],"code":-1}));
                             }
                             "RESET_STREAM" if dfr[17].as_i64().unwrap_or(0) > 0 => {
                                 fr.push(json!({"k":"rst","id":f["id"],"code":cap(&f["code"])}));
